@@ -138,7 +138,7 @@ CLAIMED['C18'] = (
     'Bond vectors proved equal to the minimum-image offset times the lattice for every centre position in the cell and every offset in the bound; normalize as quotient (numerator = component, denominator = length), '
     'symmetrize = one image per operation (checked against the group), transform = matrix product for a symbolic 3x3 matrix; autocorrelation proved equal to the definition under the intended transform length, '
     'while the real call (irfft default length) is a listed known finding reproduced by replay.',
-    'np.fft by contract; arcsin/arctan2 uninterpreted (only r checked); frame 0 concrete; vector-length identity only on orthogonal cells with one symbolic axis (thorough); z3.',
+    'np.fft by contract; arcsin/arctan2 uninterpreted (only r checked); frame 0 concrete; z3.',
     'DESIGN.md §3 C18')
 NOT_APPLICABLE.pop('C18', None)
 CLAIMED['C07'] = (
